@@ -156,13 +156,27 @@ class Interp:
             self.steps = 0
         if func.self_name and self_obj is not None:
             self.env[func.self_name] = self_obj
+        if root is None:
+            # parameters not supplied by the rule take their declared default
+            for p in func.params:
+                if p.name not in self.env and p.default is not None and p.kind in ("pos", "kwonly"):
+                    self.env[p.name] = self.eval_in_module(func.module, p.default)
+                elif p.name not in self.env and p.kind == "vararg":
+                    self.env[p.name] = ()
+                elif p.name not in self.env and p.kind == "kwarg":
+                    self.env[p.name] = {}
 
     # ------------------------------------------------------------------ decisions
     def decide(self, node: ast.AST, value) -> bool:
         r = self.root
+        memo = r.__dict__.setdefault("_decided", {})
+        if isinstance(value, Unknown) and id(value) in memo:
+            return memo[id(value)][1]
         i = len(r.taken)
         d = r.prefix[i] if i < len(r.prefix) else True
         r.taken.append((node, value, d))
+        if isinstance(value, Unknown):
+            memo[id(value)] = (value, d)  # keep the object alive so ids stay unique
         return d
 
     def truth(self, v, node) -> bool:
@@ -256,6 +270,12 @@ class Interp:
 
     def isinstance_hook(self, v, klass, node):
         return Unknown("isinstance")
+
+    def obj_membership_hook(self, obj, container, node) -> bool:
+        return False
+
+    def iterate_class(self, cls, node):
+        raise Undecided(f"iteration over class {cls.name}")
 
     def should_inline(self, f: Func) -> bool:
         return True
@@ -384,6 +404,10 @@ class Interp:
             return list(it.keys())
         if isinstance(it, range):
             return list(it)
+        if isinstance(it, _DictView):
+            return it.materialise()
+        if isinstance(it, Class):
+            return self.iterate_class(it, node)
         raise Undecided(f"iteration over abstract value {it!r}")
 
     def assign(self, t: ast.expr, v):
@@ -572,6 +596,11 @@ class Interp:
         if isinstance(op, (ast.In, ast.NotIn)):
             if isinstance(r, _DictView):
                 r = r.materialise()
+            if isinstance(l, Obj) and isinstance(r, (list, tuple, dict, set)):
+                res = any(x is l for x in r)
+                if not res:
+                    res = self.obj_membership_hook(l, r, node)
+                return res if isinstance(op, ast.In) else not res
             if isinstance(r, (list, tuple, set, frozenset, dict, str)) and is_concrete(l) and (isinstance(r, str) or is_concrete(list(r))):
                 try:
                     res = _hashable(l) in ([_hashable(x) for x in r] if not isinstance(r, str) else r)
@@ -777,6 +806,8 @@ class Interp:
 
     def construct(self, cls: Class, args, kwargs, node):
         init = cls.lookup("__init__")
+        if init is not None and not self.should_inline(init):
+            return self.external_call(cls.qual, args, kwargs, node)
         o = Obj(cls, {})
         if init is not None:
             self.call_func(init, args, kwargs, node, self_obj=o)
@@ -907,6 +938,15 @@ class Interp:
                 return sum(args[0])
             if name == "print":
                 return None
+            if name == "setattr" and len(args) == 3 and isinstance(args[0], Obj):
+                if isinstance(args[1], str):
+                    args[0].attrs[args[1]] = args[2]
+                return None
+            if name == "getattr" and len(args) >= 2 and isinstance(args[0], Obj) and isinstance(args[1], str):
+                if args[1] in args[0].attrs or args[0].cls.lookup(args[1]) is not None:
+                    return self.get_attr(args[0], args[1], node)
+                if len(args) == 3:
+                    return args[2]
             if name == "hasattr" and isinstance(args[0], Obj) and isinstance(args[1], str):
                 return args[1] in args[0].attrs or args[0].cls.lookup(args[1]) is not None
             if name == "type" and len(args) == 1 and isinstance(args[0], Obj):
